@@ -133,6 +133,7 @@ def generate(rng, tier):
         yield "#" + json.dumps(random_nested_case(rng), separators=(",", ":"))
     for _ in range(nn):
         yield random_nl_case(rng)
+    yield from default_cases()
 
 
 # ----------------------------------------------------------------------------
@@ -279,6 +280,81 @@ def _hit(sig, what, **kw):
     return d
 
 
+# ----------------------------------------------------------------------------
+# declared defaults of container traits (oracle only): the first read either
+# raises TraitError or hands out a value satisfying the invariant
+# ----------------------------------------------------------------------------
+
+DEFAULT_SHAPES = {
+    "list-min2-implicit": ("List(Int, minlen=2)", 2, None),
+    "list-max2-three": ("List(Int, [1, 2, 3], maxlen=2)", 0, 2),
+    "list-min1-one": ("List(Int, [1], minlen=1)", 1, None),
+    "list-1to3-two": ("List(Int, [1, 2], minlen=1, maxlen=3)", 1, 3),
+    "list-max0-implicit": ("List(Int, maxlen=0)", 0, 0),
+    "list-range-bad-item": ("List(Range(low=0), [-1])", 0, None),
+    "list-range-good": ("List(Range(low=0), [1, 2])", 0, None),
+    "nested-inner-too-long": ("List(List(Int, maxlen=1), [[1, 2]])", 0, None),
+    "nested-ok": ("List(List(Int, maxlen=2), [[1, 2]], maxlen=2)", 0, 2),
+    "dict-bad-value": ("Dict(Str, Range(0, 9), {'a': 12})", None, None),
+    "set-bad-item": ("Set(Range(0, 9), [1, 12])", None, None),
+}
+
+
+def default_cases():
+    for name in DEFAULT_SHAPES:
+        for first in ("read", "append", "len", "clone-read", "deepcopy-read"):
+            yield "#" + json.dumps({"dflt": name, "first": first}, separators=(",", ":"))
+
+
+def run_default(c):
+    from traits.api import HasTraits, List, Dict, Set, Str, Int, Range, TraitError  # noqa: F401
+    from traits.trait_list_object import TraitListObject
+    decl, lo, hi = DEFAULT_SHAPES[c["dflt"]]
+    hits, tags = [], {"dflt:" + c["dflt"], "dflt-first:" + c["first"]}
+    try:
+        cls = type("D", (HasTraits,), {"x": eval(decl)})
+    except TraitError:
+        return "class-rejected", [], tags | {"dflt-class-rejected"}
+    o = cls()
+    if c["first"] == "clone-read":
+        o = o.clone_traits()
+    elif c["first"] == "deepcopy-read":
+        o = copy.deepcopy(o)
+    try:
+        if c["first"] == "append":
+            o.x.append(5) if isinstance(o.x, list) else None
+        elif c["first"] == "len":
+            len(o.x)
+        v = o.x
+    except TraitError:
+        return "err TraitError", [], tags | {"dflt-rejected"}
+    except Exception as e:
+        return "err " + S.exc_name(e), [_hit("default-read-raises:" + c["dflt"], "first read of the declared default raised %s" % S.exc_name(e))], tags
+    sig = c["dflt"]
+
+    def bad_leaf(x):
+        return not isinstance(x, int) or isinstance(x, bool)
+    if isinstance(v, list):
+        if not isinstance(v, TraitListObject):
+            hits.append(_hit("default-not-live:" + sig, "default is a %s" % type(v).__name__))
+        if (lo is not None and len(v) < lo) or (hi is not None and len(v) > hi):
+            hits.append(_hit("default-length-out-of-bounds:" + sig, "declared default handed out with length %d outside %s..%s" % (
+                len(v), lo, hi), value=repr(v)))
+        if "range" in sig and any(bad_leaf(x) or x < 0 for x in v):
+            hits.append(_hit("default-invalid-item:" + sig, "declared default holds an invalid item", value=repr(v)))
+        if sig.startswith("nested"):
+            for inner in v:
+                if not isinstance(inner, TraitListObject) or len(inner) > (1 if "too-long" in sig else 2):
+                    hits.append(_hit("default-invalid-inner:" + sig, "inner default list invalid", value=repr(v)))
+    elif isinstance(v, dict):
+        if any(not (0 <= x <= 9) for x in v.values()):
+            hits.append(_hit("default-invalid-item:" + sig, "declared dict default holds an invalid value", value=repr(v)))
+    elif isinstance(v, set):
+        if any(not (0 <= x <= 9) for x in v):
+            hits.append(_hit("default-invalid-item:" + sig, "declared set default holds an invalid member", value=repr(v)))
+    return "ok " + repr(v if not isinstance(v, set) else sorted(v)), hits, tags
+
+
 def _valid_item(vspec, x):
     """Independent reference: does x satisfy the inner trait after conversion?"""
     if not isinstance(x, int) or isinstance(x, bool):
@@ -292,7 +368,10 @@ def _valid_item(vspec, x):
 
 def run_impl(case):
     if case.startswith("#"):
-        return run_nested(json.loads(case[1:]))
+        c = json.loads(case[1:])
+        if "dflt" in c:
+            return run_default(c)
+        return run_nested(c)
     if case.startswith("nl:"):
         return run_nl(case)
     from traits.api import TraitError
@@ -464,7 +543,11 @@ LEAVES = [0, 1, 2, 5, 9, 12, -1, "x", None, 2.5]
 def random_nested_case(rng):
     ops = []
     for _ in range(rng.randint(1, 10)):
-        t = rng.choice(["ll", "ll", "lli", "dl", "dl", "dli", "st", "st", "dc", "dc", "assign"])
+        t = rng.choice(["ll", "ll", "lli", "dl", "dl", "dli", "st", "st", "dc", "dc", "assign", "copy"])
+        if t == "copy":
+            # continue the history on a copy of the object: the copy's (nested) containers must be just as live
+            ops.append([["obj"], rng.choice(["deepcopy", "clone", "clone-deep", "pickle"]), []])
+            continue
         leaf = lambda: rng.choice(LEAVES) if rng.random() < 0.35 else rng.choice([0, 1, 2, 5, 9])  # noqa: E731
         lst = lambda n=3: [leaf() for _ in range(rng.randint(0, n))]  # noqa: E731
         if t == "ll":
@@ -585,10 +668,43 @@ def run_nested(case):
         obj.st = {1, 2, 5}
         obj.dc = {1: 1, 2: 2}
     events = []
-    for n in ("ll_items", "dl_items", "st_items", "dc_items"):
-        obj.on_trait_change(lambda o, name, old, new: events.append(name), n)
+
+    def hook(o):
+        for n in ("ll_items", "dl_items", "st_items", "dc_items"):
+            o.on_trait_change(lambda ob, name, old, new: events.append(name), n)
+    hook(obj)
     hits, tags, outs = [], set(), []
     for path, m, args in case["ops"]:
+        if path == ["obj"]:
+            import pickle
+            tags.add("copy:" + m)
+            before = snapshot(obj)
+            try:
+                if m == "deepcopy":
+                    new = copy.deepcopy(obj)
+                elif m == "clone":
+                    new = obj.clone_traits()
+                elif m == "clone-deep":
+                    new = obj.clone_traits(copy="deep")
+                else:
+                    import sys
+                    mod = sys.modules.setdefault("verif_c04_nested", type(sys)("verif_c04_nested"))
+                    setattr(mod, "N", cls)
+                    cls.__module__, cls.__qualname__ = "verif_c04_nested", "N"
+                    new = pickle.loads(pickle.dumps(obj))
+            except Exception as e:
+                outs.append("err " + S.exc_name(e))
+                LAST_FIRED.append(False)
+                continue
+            LAST_FIRED.append(False)
+            if snapshot(new) != before:
+                hits.append(_hit("copy-differs:" + m, "the copy's container values differ from the original's", original=before, copy=snapshot(new)))
+            obj = new
+            hook(obj)
+            for p_ in check_state(obj):
+                hits.append(_hit("invalid-state:copy:%s" % m, "after %s: %s" % (m, p_), after=snapshot(obj)))
+            outs.append("ok copy")
+            continue
         tags.add("%s.%s" % ("/".join("i" if not isinstance(p, str) or i else p for i, p in enumerate(path)), m))
         snap = snapshot(obj)
         del events[:]
